@@ -234,7 +234,7 @@ def random_choice(rng, allow_trunc=True, persistent=False):
         ch['cl'] = 'none'
     ch['conn'] = rng.choice(['none', 'none', 'close', 'keep-alive'])
     ch['fmt'] = rng.choice(['crlf'] * 4 + ['lf', 'nospace', 'folded', 'dup'])
-    size = rng.choice([0, 1, 2, 3, 5, 17, 64, 300, 1000] + ([5000, 9000] if rng.random() < 0.2 else []))
+    size = rng.choice([0, 1, 2, 3, 5, 17, 64, 200] + ([1000, 5000, 9000] if rng.random() < 0.15 else []))
     ch['content'] = bytes(rng.choice(b'abcdefghij \n<>/') if rng.random() < 0.9 else rng.randrange(256) for _ in range(size))
     ch['gzip'] = rng.random() < 0.3
     ch['trunc_frac'] = rng.random() if (allow_trunc and rng.random() < 0.25) else None
